@@ -77,6 +77,8 @@ PARTIAL = ["Entropy: the occurrence counts, the summation order and the error/Na
            "18 digits, CRLF line ends, gzip-compressed or stdin profiles",
            "the model is stated for ASCII residues: CharStats / InformativeSites index 130-entry slices with unicode.ToUpper(rune) "
            "(bytes >= 130 panic in Go; only NumMutationsUniquePerSequence models that panic explicitly)",
+           "command line `diff` with --counts / --no-gaps / --reverse: the table printed from the CountDifferences model (pairs sorted, gap pairs "
+           "left out with --no-gaps, one line per row but the first), ReplaceMatchChars / DiffWithFirst otherwise, byte for byte",
            "CountDifferences on an alignment without sequences and CountProfile.CountsAt(len) were run-time panics: repaired "
            "(fix: commits), the models follow the repaired code (countDifferences_empty, profileCountsAt_error_iff)"]
 
@@ -365,7 +367,7 @@ def gen(rng, tier):
     for c in _gen_aa(rng, tier):
         yield c
     from driver import cligen
-    for c in cligen.cases(rng, ['consensus', 'entropy', 'stats', 'gapstats', 'mutstats', 'charstats', 'alleles', 'alphabet', 'pssm', 'summary'], 40 if tier == "quick" else 400):
+    for c in cligen.cases(rng, ['consensus', 'entropy', 'stats', 'gapstats', 'mutstats', 'charstats', 'alleles', 'alphabet', 'pssm', 'summary', 'diff'], 40 if tier == "quick" else 400):
         yield c
     for c in cligen.cases(rng, ['mutlist', 'mutcount'], 30 if tier == "quick" else 600):
         yield c
